@@ -412,9 +412,13 @@ func (s *Sched) enabled() []transition {
 	return ts
 }
 
+// DefaultMaxSteps is the step cap of one execution (an execution that reaches it is reported as
+// capped, never as a verdict); scenarios with very long single executions raise it.
+var DefaultMaxSteps = 20000
+
 // Run executes one complete execution of body under the choice prefix (choice 0 afterwards).
 func Run(prefix []int, keepTrace bool, horizon time.Duration, noCurSig bool, body func()) *Sched {
-	s := &Sched{yield: make(chan struct{}), prefix: prefix, MaxSteps: 20000, KeepTrace: keepTrace, KeepLabels: keepTrace, Horizon: horizon, NoCurSig: noCurSig}
+	s := &Sched{yield: make(chan struct{}), prefix: prefix, MaxSteps: DefaultMaxSteps, KeepTrace: keepTrace, KeepLabels: keepTrace, Horizon: horizon, NoCurSig: noCurSig}
 	s.Points = make([]Point, 0, 256)
 	s.tsBuf = make([]transition, 0, 16)
 	S = s
